@@ -18,6 +18,7 @@ print(re.match(r'C[0-9][0-9]', p).group(0))")
   out=$(VERIF_NO_MUTANTS=1 /venv/bin/python check $prop --tier ${VERIF_TIER:-quick} 2>&1); rc=$?
   git -C $REPO checkout -- .
   nviol=$(echo "$out" | grep -c '^VIOLATION')
+  if [ $rc -eq 2 ]; then echo "$id ($prop): HARNESS: $(echo "$out" | grep -m2 'HARNESS' | cut -c1-400 | tr '\n' '|')"; fi
   echo "$id ($prop): exit=$rc violations=$nviol $(echo "$out" | grep -A1 '^VIOLATION' | grep 'kind=' | head -2 | tr -s ' ' | cut -c1-150 | tr '\n' '|')"
 done
 git -C $REPO status --porcelain --untracked-files=no | head -3
